@@ -167,6 +167,7 @@ type c15gen struct {
 	cfgAddr  vaa.Address
 	s1, s2   *nodePrivilegedService
 	ch1, ch2 chan *vaa.VAA
+	prev     []byte // an earlier request (wire form), replayed on the second service only
 }
 
 func (g *c15gen) newServices() {
@@ -203,7 +204,17 @@ func (g *c15gen) emit(kind string, req0 *nodev1.InjectGovernanceVAARequest) {
 	g.dist[kind]++
 	id := fmt.Sprintf("%s%d", kind, g.n)
 	r1 := c15call(g.s1, g.ch1, req)
+	// the second operator's node has served something else in between
+	if g.prev != nil && g.n%3 == 0 {
+		other := &nodev1.InjectGovernanceVAARequest{}
+		if err := proto.Unmarshal(g.prev, other); err == nil && len(other.Messages) <= cap(g.ch2) {
+			c15call(g.s2, g.ch2, other)
+		}
+	}
 	r2 := c15call(g.s2, g.ch2, req2)
+	if len(raw) < 4096 {
+		g.prev = raw
+	}
 
 	msgs := make([]string, len(req.Messages))
 	for i, m := range req.Messages {
@@ -323,7 +334,7 @@ func (g *c15gen) corrupt(s string) string {
 func (g *c15gen) hexField(want int) string {
 	n := want
 	if n < 0 {
-		n = []int{0, 1, 2, 20, 32, 33, 64, 100, 255, 256, 300}[g.r.Intn(11)]
+		n = []int{0, 1, 2, 20, 32, 33, 64, 100, 255, 256, 300, 999, 1000, 1001, 4096}[g.r.Intn(15)]
 	}
 	switch g.r.Intn(10) {
 	case 0: // wrong length by one byte either way
@@ -553,6 +564,129 @@ func (g *c15gen) request(msgs ...*nodev1.GovernanceMessage) *nodev1.InjectGovern
 	return &nodev1.InjectGovernanceVAARequest{CurrentSetIndex: g.u32(), Timestamp: g.u32(), Messages: msgs}
 }
 
+// ---- replay: re-execute recorded case lines (only the request part of a line is read) against the real code
+
+func c15unhex(t *testing.T, s string) string {
+	if s == "-" {
+		return ""
+	}
+	b, err := hex.DecodeString(s)
+	if err != nil {
+		t.Fatalf("c15 replay: bad hex %q", s)
+	}
+	return string(b)
+}
+
+func c15u(t *testing.T, s string, bits int) uint64 {
+	v, err := strconv.ParseUint(s, 10, bits)
+	if err != nil {
+		t.Fatalf("c15 replay: bad number %q", s)
+	}
+	return v
+}
+
+func c15parseMsg(t *testing.T, s string) *nodev1.GovernanceMessage {
+	f := strings.Split(s, ":")
+	if len(f) != 5 {
+		t.Fatalf("c15 replay: bad message %q", s)
+	}
+	m := &nodev1.GovernanceMessage{Sequence: c15u(t, f[0], 64), Nonce: uint32(c15u(t, f[1], 32)), TargetChainId: uint32(c15u(t, f[2], 32))}
+	a := strings.Split(f[4], ",")
+	need := func(n int) {
+		if len(a) != n {
+			t.Fatalf("c15 replay: bad arguments %q", s)
+		}
+	}
+	switch f[3] {
+	case "none":
+	case "fee":
+		need(1)
+		m.Payload = &nodev1.GovernanceMessage_UpdateMessageFee{UpdateMessageFee: &nodev1.UpdateMessageFee{NewMessageFee: c15unhex(t, a[0])}}
+	case "tf":
+		need(2)
+		m.Payload = &nodev1.GovernanceMessage_TransferFee{TransferFee: &nodev1.TransferFee{Amount: c15unhex(t, a[0]), Recipient: c15unhex(t, a[1])}}
+	case "gs":
+		gs := []*nodev1.GuardianSetUpgrade_Guardian{}
+		if f[4] != "-" {
+			for _, e := range a {
+				pn := strings.Split(e, "/")
+				if len(pn) != 2 {
+					t.Fatalf("c15 replay: bad guardian %q", e)
+				}
+				gs = append(gs, &nodev1.GuardianSetUpgrade_Guardian{Pubkey: c15unhex(t, pn[0]), Name: c15unhex(t, pn[1])})
+			}
+		}
+		m.Payload = &nodev1.GovernanceMessage_GuardianSet{GuardianSet: &nodev1.GuardianSetUpgrade{Guardians: gs}}
+	case "cu":
+		need(1)
+		m.Payload = &nodev1.GovernanceMessage_ContractUpgrade{ContractUpgrade: &nodev1.ContractUpgrade{Payload: c15unhex(t, a[0])}}
+	case "rc":
+		need(3)
+		m.Payload = &nodev1.GovernanceMessage_BridgeRegisterChain{BridgeRegisterChain: &nodev1.BridgeRegisterChain{
+			Module: c15unhex(t, a[0]), ChainId: uint32(c15u(t, a[1], 32)), EmitterAddress: c15unhex(t, a[2])}}
+	case "bu":
+		need(2)
+		m.Payload = &nodev1.GovernanceMessage_BridgeContractUpgrade{BridgeContractUpgrade: &nodev1.BridgeUpgradeContract{
+			Module: c15unhex(t, a[0]), Payload: c15unhex(t, a[1])}}
+	case "ds":
+		need(2)
+		var seqs []uint64
+		if a[1] != "-" {
+			for _, e := range strings.Split(a[1], ".") {
+				seqs = append(seqs, c15u(t, e, 64))
+			}
+		}
+		m.Payload = &nodev1.GovernanceMessage_DestroyUnexecutedSequenceContracts{DestroyUnexecutedSequenceContracts: &nodev1.TokenBridgeDestroyUnexecutedSequenceContracts{
+			EmitterChain: uint32(c15u(t, a[0], 32)), Sequences: seqs}}
+	case "cl":
+		need(1)
+		m.Payload = &nodev1.GovernanceMessage_UpdateMinimalConsistencyLevel{UpdateMinimalConsistencyLevel: &nodev1.TokenBridgeUpdateMinimalConsistencyLevel{
+			NewConsistencyLevel: uint32(c15u(t, a[0], 32))}}
+	case "ra":
+		need(1)
+		m.Payload = &nodev1.GovernanceMessage_UpdateRefundAddress{UpdateRefundAddress: &nodev1.TokenBridgeUpdateRefundAddress{NewRefundAddress: c15unhex(t, a[0])}}
+	default:
+		t.Fatalf("c15 replay: unknown kind %q", f[3])
+	}
+	return m
+}
+
+func (g *c15gen) replay(path string) {
+	f, err := os.Open(path)
+	if err != nil {
+		g.t.Fatal(err)
+	}
+	defer f.Close()
+	sc := bufio.NewScanner(f)
+	sc.Buffer(make([]byte, 1<<20), 1<<28)
+	for sc.Scan() {
+		fs := strings.Fields(sc.Text())
+		if len(fs) < 2 || fs[0] != "inj" {
+			continue
+		}
+		kv := map[string]string{}
+		for _, x := range fs[2:] {
+			if i := strings.IndexByte(x, '='); i > 0 {
+				kv[x[:i]] = x[i+1:]
+			}
+		}
+		g.cfgChain = vaa.ChainID(c15u(g.t, kv["cc"], 16))
+		g.cfgAddr = vaa.Address{}
+		copy(g.cfgAddr[:], []byte(c15unhex(g.t, kv["ce"])))
+		g.ch1 = make(chan *vaa.VAA, 64)
+		g.ch2 = make(chan *vaa.VAA, 64)
+		g.s1 = &nodePrivilegedService{injectC: g.ch1, logger: zap.NewNop(), governanceChainId: g.cfgChain, governanceEmitterAddress: g.cfgAddr}
+		g.s2 = &nodePrivilegedService{injectC: g.ch2, logger: zap.NewNop(), governanceChainId: g.cfgChain, governanceEmitterAddress: g.cfgAddr}
+		req := &nodev1.InjectGovernanceVAARequest{CurrentSetIndex: uint32(c15u(g.t, kv["gsi"], 32)), Timestamp: uint32(c15u(g.t, kv["ts"], 32))}
+		if kv["msgs"] != "-" {
+			for _, ms := range strings.Split(kv["msgs"], ";") {
+				req.Messages = append(req.Messages, c15parseMsg(g.t, ms))
+			}
+		}
+		g.emit("replay", req)
+	}
+}
+
 func TestVerifC15Gov(t *testing.T) {
 	out := os.Getenv("VERIF_OUT")
 	if out == "" {
@@ -568,11 +702,16 @@ func TestVerifC15Gov(t *testing.T) {
 	w := bufio.NewWriterSize(f, 1<<20)
 	defer w.Flush()
 	g := &c15gen{r: rand.New(rand.NewSource(seed)), w: w, t: t, dist: map[string]int{}}
+	if rp := os.Getenv("VERIF_REPLAY"); rp != "" {
+		g.replay(rp)
+		t.Logf("c15 harness: replayed %d cases", g.n)
+		return
+	}
 	g.newServices()
 
-	perKind, multi, bigN := 220, 150, 1
+	perKind, multi, bigN := 700, 500, 1
 	if tier == "thorough" {
-		perKind, multi, bigN = 4000, 3000, 6
+		perKind, multi, bigN = 15000, 10000, 6
 	}
 
 	// 1. single-message requests, every kind (9 kinds + unset oneof)
